@@ -210,7 +210,10 @@ def ascii_locale_arm(tmpdir):
 
 
 FIXED = ['', '\n', '// only a comment', 'Table t {\n id int\n}', 'Table "é" {\n "日本" int [note: \'ünï\']\n}\n',
-         'Table t {\n id int [k: \'v\']\n}\n', 'Table t {\n id\n}\n', 'Table t {\r\n id int\r\n}\r\n']
+         'Table t {\n id int [k: \'v\']\n}\n', 'Table t {\n id\n}\n', 'Table t {\r\n id int\r\n}\r\n',
+         # characters str.splitlines() treats as line breaks although DBML and text files do not
+         "Table t {\n id int [note: 'a\u2028b']\n}\n", "Table t {\n id int\n Note: '''x\u2029y\x0bz\x0cw\x1cv\x85u'''\n}\n",
+         "// c\u2028omment\nTable t {\n id int // tr\x85ail\n}\n", "Table \"a\x1db\" {\n id int [default: 'q\x1er']\n}\nNote n {\n 'st\u2028icky'\n}\n"]
 
 
 def shard(ctx: Ctx):
